@@ -35,6 +35,7 @@ type opObs struct {
 	NOps      int       `json:"nops"`
 	Label     string    `json:"label,omitempty"` // model step the fault hit ("" = not mapped)
 	Crashed   bool      `json:"crashed"`
+	CtxEnded  bool      `json:"ctx_ended"` // the context of the call was ended during the call: the entry lock may be left behind
 	Remote    remoteObs `json:"remote"`
 	trace     []shim.Op
 	observed  bool
@@ -84,23 +85,26 @@ func seqOracle(r *h.Run, sc seqScenario, obs []opObs) {
 	dirty := false // a client died since (mutable: its lock may be left behind until CleanEntry)
 	for i, op := range sc.Ops {
 		o := obs[i]
+		// a client that died, or whose context ended under it (Unlock(ctx) then refuses to work), may leave the entry lock
+		// behind: it goes stale and CleanEntry removes it
+		gone := o.Crashed || o.CtxEnded
 		switch op.Op {
 		case "store":
 			stored[op.Ver] = true
 			if o.Res == "ok" {
 				visible = op.Ver
-				dirty = false
+				dirty = gone
 			} else {
 				visible = -1
-				if o.Crashed {
+				if gone {
 					dirty = true
 				}
 			}
 		case "clean":
-			if o.Res == "ok" && !o.Crashed {
+			if o.Res == "ok" && !gone {
 				dirty = false
 			}
-			if o.Crashed {
+			if gone {
 				dirty = true
 			}
 		case "fetch":
@@ -116,7 +120,7 @@ func seqOracle(r *h.Run, sc seqScenario, obs []opObs) {
 				r.Fail("store-success-not-visible:"+sc.Kind+":fetch-fails-"+o.Res+sc.Env.sig(),
 					fmt.Sprintf("op %d: Store(v%d) reported success, a later fault-free Fetch fails (%s)", i, visible, o.Res), sc)
 			}
-			if o.Crashed {
+			if gone {
 				dirty = true
 			}
 		}
